@@ -95,6 +95,10 @@ func runC01(c *Ctx) []Obligation {
 		c.edgeMust(P, "write.live-entries-are-set", S+"Write", `^nonnil\(`+ent+`\.value\)$`, true, `^invoke store/types\.KVStore\.Set\(store\.parent, `, 1, "every dirty live entry is written to the parent"),
 		c.edgeMust(P, "write.dirty-entries-are-collected", S+"Write", `^next\(range\(store\.cache\)\)#2\.dirty$`, true, `^builtin\.append\(phi:keys, \[next\(range\(store\.cache\)\)#1\]\)`, 1, "every dirty entry's key is collected for the flush"),
 		c.edgeMust(P, "setCacheValue.dirty-keys-await-merge", S+"setCacheValue", `^dirty$`, true, `mapset:^store\.unsortedCache\[conv<string>\(key\)\] = `, 1, "a dirty write is queued for the next sorted merge"),
+		c.edgeMust(P, "dirtyItems.in-domain-keys-collected", S+"dirtyItems", `^github\.com/tendermint/tm-db\.IsKeyInDomain\(conv<\[\]byte>\(next\(range\(store\.unsortedCache\)\)#1\), start, end\)$`, true, `^builtin\.append\(`, 1, "every pending key inside the iteration domain is collected for the merge"),
+		c.edgeMust(P, "dirtyItems.collected-keys-leave-the-pending-set", S+"dirtyItems", `^github\.com/tendermint/tm-db\.IsKeyInDomain\(conv<\[\]byte>\(next\(range\(store\.unsortedCache\)\)#1\), start, end\)$`, true, `^builtin\.delete\(store\.unsortedCache, next\(range\(store\.unsortedCache\)\)#1\)`, 1, "and is taken out of the pending set (it now lives in the sorted list)"),
+		c.edgeMust(P, "dirtyItems.smaller-key-inserted-before", S+"dirtyItems", `^eq\(-1, bytes\.Compare\(var:unsorted\[0\]\.Key, assert<\*github\.com/tendermint/tendermint/libs/kv\.Pair>\(phi:e\.Value\)\.Key\)\)$`, true, `^\(\*container/list\.List\)\.InsertBefore\(store\.sortedCache, var:unsorted\[0\], phi:e\)`, 1, "a collected key smaller than the current list element is inserted before it"),
+		c.edgeMust(P, "dirtyItems.leftovers-appended", S+"dirtyItems", `^lt\(\(phi:rangeindex \+ 1\), builtin\.len\(`, true, `^\(\*container/list\.List\)\.PushBack\(store\.sortedCache, `, 1, "collected keys beyond the end of the list are appended"),
 		c.edgeMust(P, "skipdeletes.unbounded-skips-every-delete", "(*store/cachekv.cacheMergeIterator).skipCacheDeletes", `^nonnil\(until\)$`, false, `^invoke store/types\.Iterator\.Next\(iter\.cache\)`, 1, "without a bound every pending delete marker is skipped"),
 		c.edgeMust(P, "skipdeletes.bounded-skips-below-bound", "(*store/cachekv.cacheMergeIterator).skipCacheDeletes", `^lt\(\(\*store/cachekv\.cacheMergeIterator\)\.compare\(iter, invoke store/types\.Iterator\.Key\(iter\.cache\), until\), 0\)$`, true, `^invoke store/types\.Iterator\.Next\(iter\.cache\)`, 1, "a delete marker below the bound is skipped"),
 		c.edgeMust(P, "skip.delete-marker-is-consumed", "(*store/cachekv.cacheMergeIterator).skipUntilExistsOrInvalid", `^nonnil\(invoke store/types\.Iterator\.Value\(iter\.cache\)\)$`, false, `^invoke store/types\.Iterator\.Next\(iter\.cache\) || ^\(\*store/cachekv\.cacheMergeIterator\)\.skipCacheDeletes\(iter, invoke store/types\.Iterator\.Key\(iter\.parent\)\)`, 2, "wherever the current pending entry is a delete marker it is consumed before the loop goes round (otherwise the loop never ends or the marker surfaces)"),
@@ -146,6 +150,12 @@ func runC01(c *Ctx) []Obligation {
 		{Prop: P, ID: "merge.next.settles-first", Fn: M + "Next", Barrier: []string{`^\(\*store/cachekv\.cacheMergeIterator\)\.skipUntilExistsOrInvalid\(iter\)`}, Target: CallTo(`^invoke store/types\.Iterator\.`), TargetMustExist: true, Why: "pending deletes are skipped before the two sides are compared"},
 		{Prop: P, ID: "merge.key.settles-first", Fn: M + "Key", Barrier: []string{`^\(\*store/cachekv\.cacheMergeIterator\)\.skipUntilExistsOrInvalid\(iter\)`}, Target: CallTo(`^invoke store/types\.Iterator\.`), TargetMustExist: true, Why: "pending deletes are skipped before the two sides are compared"},
 		{Prop: P, ID: "merge.value.settles-first", Fn: M + "Value", Barrier: []string{`^\(\*store/cachekv\.cacheMergeIterator\)\.skipUntilExistsOrInvalid\(iter\)`}, Target: CallTo(`^invoke store/types\.Iterator\.`), TargetMustExist: true, Why: "pending deletes are skipped before the two sides are compared"},
+		{Prop: P, ID: "write.cache-reset", Fn: S + "Write", Barrier: []string{`store:^store\.cache = makemap$`}, Target: TargetAnyReturn(), Why: "after the flush the pending entries are dropped (a second Write re-applies nothing)"},
+		{Prop: P, ID: "write.pending-set-reset", Fn: S + "Write", Barrier: []string{`store:^store\.unsortedCache = makemap$`}, Target: TargetAnyReturn(), Why: "and so is the set of keys awaiting the merge"},
+		{Prop: P, ID: "write.sorted-list-reset", Fn: S + "Write", Barrier: []string{`store:^store\.sortedCache = container/list\.New\(\)$`}, Target: TargetAnyReturn(), Why: "and the sorted list iterators read"},
+		{Prop: P, ID: "dirtyItems.sorted-before-merge", Fn: S + "dirtyItems", Barrier: []string{`^sort\.Slice\(var:unsorted, `}, Target: CallTo(`InsertBefore\(|PushBack\(`), TargetMustExist: true, Why: "the collected keys are sorted before they are merged into the sorted list"},
+		{Prop: P, ID: "dirtyItems.domain-is-the-iterators", Fn: S + "dirtyItems", Target: CallTo(`IsKeyInDomain\(`).Except(`^github\.com/tendermint/tm-db\.IsKeyInDomain\(conv<\[\]byte>\(next\(range\(store\.unsortedCache\)\)#1\), start, end\)$`), Why: "a pending key is tested against [start, end) of this iteration, in that order"},
+		{Prop: P, ID: "iterator.merges-pending-first", Fn: S + "iterator", Barrier: []string{`^\(\*store/cachekv\.Store\)\.dirtyItems\(store, start, end\)`}, Target: CallTo(`newMemIterator\(`), TargetMustExist: true, Why: "the pending keys of the domain are merged into the sorted list before the in-memory iterator is cut from it"},
 		// compare
 		{Prop: P, ID: "compare.ascending", Fn: M + "compare", Assume: []Lit{T(`^iter\.ascending$`)}, Target: RetNotMatch(0, `^bytes\.Compare\(a, b\)$`), Why: "ascending order is byte order"},
 		{Prop: P, ID: "compare.descending", Fn: M + "compare", Assume: []Lit{F(`^iter\.ascending$`)}, Target: RetNotMatch(0, `^\(bytes\.Compare\(a, b\) \* -1\)$`), Why: "descending order is reversed byte order"},
